@@ -31,6 +31,7 @@ REQUIRED_REACH = ['ParseMCNPCell.parse_importance_cards',
 FAMILIES = ['cell-cards', 'cell-cards-np', 'data-n', 'data-np-two-cards',
             'data-np-one-card', 'shorthand-r', 'shorthand-m', 'shorthand-i',
             'mixed-sources', 'one-particle-zero-cell', 'one-particle-zero-data',
+            'filled-cells',
             'zero-first', 'zero-last', 'all-but-one-zero', 'like-but-imp0',
             'like-but-imp1']
 _PER = {'quick': 10, 'thorough': 600}
@@ -146,6 +147,28 @@ def build(case):
             new.imp = {'n': '2'}
         deck.cells.append(new)
         deck.tags.add('like.imp')
+    if fam == 'filled-cells':
+        # level-0 cells that carry a FILL: the pieces generated from the
+        # filling universe must follow the importance of the filled cell
+        on_cards(['n']) if rng.random() < 0.5 else \
+            deck.imp_cards.append(('n', all_vals))
+        deck.surfs.append(M.Surf(101, 'px', [0.1]))
+        deck.cells.append(M.Cell(201, mat=1, rho='-1.5', geom=M.S(-101),
+                                 imp={'n': '1'}, u=7))
+        deck.cells.append(M.Cell(202, mat=2, rho='-2.5', geom=M.S(101),
+                                 imp={'n': '1'}, u=7))
+        if deck.imp_cards:
+            # data cards are positional: universe cells need entries too
+            parts, toks = deck.imp_cards[0]
+            deck.imp_cards[0] = (parts, list(toks) + ['1', '1'])
+            for cel in deck.cells[-2:]:
+                cel.imp = None
+        hosts = rng.sample(range(ncell), min(ncell, rng.randint(2, 4)))
+        if not any(k in zeros for k in hosts):
+            hosts[0] = sorted(zeros)[0]
+        for k in hosts:
+            cells[k].fill = M.Fill(universe=7)
+        deck.tags.add('imp.filled')
     for mat in (1, 2):
         deck.mats.append(M.Material(mat, [('13027', '1')]))
     deck.tags.add(f'c12.{fam}')
@@ -199,10 +222,14 @@ def run(case, ctx):
         crash_violation(out, run_)
         return out
     t4, _probs = ctx.parse(run_)
-    zero = [c.id for c in deck.cells if deck.importance_zero(c)]
-    live = [c.id for c in deck.cells if not deck.importance_zero(c)]
+    level0 = [c for c in deck.cells if not c.u]
+    zero = [c.id for c in level0 if deck.importance_zero(c)]
+    live = [c.id for c in level0 if not deck.importance_zero(c)]
     out.nontrivial = bool(zero) and bool(live)
-    written = {vid for vid, vol in t4.volus.items() if not vol.fictive}
+    # a volume generated from a filled cell is owned by the outermost
+    # container of its provenance chain
+    written = {(vol.chain[-1][1] if vol.chain else vid)
+               for vid, vol in t4.volus.items() if not vol.fictive}
     out.judged += len(deck.cells)
     out.counters['cells_judged'] += len(deck.cells)
     out.counters['zero_cells'] += len(zero)
